@@ -132,7 +132,7 @@ class DataModelField(DataModelFieldBase):
 
     def __str__(self) -> str:  # noqa: PLR0912
         data: dict[str, Any] = {k: v for k, v in self.extras.items() if k not in self._EXCLUDE_FIELD_KEYS}
-        if self.alias:
+        if self.alias is not None:
             data["alias"] = self.alias
         if self.constraints is not None and not self.self_reference() and not self.data_type.strict:
             data = {
